@@ -23,6 +23,12 @@ var (
 		Text: "FRESH.1: the result container of a BinaryOp never takes storage that may alias an operand's backing array (append(operand.Value, …)); FRESH.2: BinaryOp of an index-assignable container never returns its receiver"}
 	rCOPY1 = &Rule{Name: "COPY.1", Floor: 12, Fn: ruleCOPY1,
 		Text: "Copy of every container builds fresh storage, never returns the receiver, and stores only elem.Copy() results"}
+	rLOCK = &Rule{Name: "G-LOCK", Floor: 9, Fn: ruleLOCK,
+		Text: "every method of *Compiled that touches a protected field starts with lock.Lock()/RLock() followed by the matching deferred unlock (released on every exit incl. panics); methods that assign protected state, hand globals to the VM or call a mutating method hold the exclusive lock; no re-entrant locking"}
+	rREC = &Rule{Name: "REC", Floor: 7, Fn: ruleREC,
+		Text: "REC.1: VM.Run is called only inside a goroutine whose first statement defers a recover handler that sends on the result channel on every arm and never re-panics; the channel is local. REC.2: every path after the go statement receives the answer before returning; no select default"}
+	rABORT = &Rule{Name: "ABORT", Floor: 12, Fn: ruleABORT,
+		Text: "ABORT.1 the abort flag is accessed only through sync/atomic; ABORT.2 it is polled in the dispatch loop condition and nothing inside the dispatch function can spin or recurse without returning to it; ABORT.3 on ctx.Done: Abort() then drain, result ctx.Err(); ABORT.4 a fresh VM per run; ABORT.5 the flag is cleared only after the dispatch loop returned"}
 )
 
 func allProperties() []*Property {
@@ -39,6 +45,18 @@ func allProperties() []*Property {
 			Decided:    "the optimizer's notion of jump / terminator is the VM's (opcode classes extracted from the VM arms).",
 			NotDecided: "equivalence of optimised and unoptimised code for all programs.",
 			Rules:      []*Rule{rCODEC5}},
+		{ID: "C05",
+			Decided:    "the structure that turns any ordinary panic of the VM goroutine into a returned error, waits for that goroutine, and releases the lock by defer on every exit.",
+			NotDecided: "which run-time faults a script can provoke; faults recover() cannot catch are only partly covered (thorough).",
+			Rules:      []*Rule{rREC, rLOCK}},
+		{ID: "C07",
+			Decided:    "atomic abort flag polled once per instruction, abort-then-drain on cancellation, fresh VM per run, lock released by defer.",
+			NotDecided: "the delay bound, goroutine counts and results of later runs as run-time facts.",
+			Rules:      []*Rule{rABORT, rREC, rLOCK}},
+		{ID: "C08",
+			Decided:    "lock discipline of *Compiled; Copy is deep and fresh (what makes per-clone globals independent).",
+			NotDecided: "absence of data races over all interleavings; equality with the sequential baseline.",
+			Rules:      []*Rule{rLOCK, rCOPY1}},
 		{ID: "C09",
 			Decided:    "no route from the storage of an immutable array/map to a write or to a mutable owner, in any function of any package (ownership rule on two fields).",
 			NotDecided: "immutability broken by embedder code or unsafe/reflect (neither occurs in the tree).",
@@ -47,6 +65,10 @@ func allProperties() []*Property {
 			Decided:    "Copy is deep and fresh for every container.",
 			NotDecided: "arithmetic results; NaN/±0 laws as numeric facts.",
 			Rules:      []*Rule{rCOPY1}},
+		{ID: "C15",
+			Decided:    "lock discipline of the accessor methods.",
+			NotDecided: "the history clause over all call sequences.",
+			Rules:      []*Rule{rLOCK}},
 		{ID: "C12",
 			Decided:    "constant re-indexing covers exactly the opcodes through which the VM reads the constant pool, with the operand layout of the tables.",
 			NotDecided: "behavioural equality after de-duplication / gob round trip.",
